@@ -51,6 +51,12 @@ namespace Buf
 @[reducible] def size (x : Buf) : Nat := x.data.length
 def immutable (x : Buf) : Bool := x.flags % 2 = 1
 def nocopy (x : Buf) : Bool := x.flags / 2 % 2 = 1
+/-- the elements can not be duplicated: the buffer says so (`BufferNoCopy`), or the element type has a destructor but
+    no copy constructor -/
+def uncopyable (x : Buf) : Bool :=
+  x.nocopy || (match x.traits with
+    | some t => t.fini.isSome && !t.init
+    | none => false)
 def shared (x : Buf) : Bool := 2 ≤ x.ref
 /-- what a handle reads: `_used` bytes from the start of the data -/
 def content (x : Buf) : List Byte := x.data.take x.used
@@ -447,7 +453,7 @@ def detach (s : State) (b len : Nat) : Out Nat :=
     else
       let len := roundUp len (esize x.traits)
       if x.ref < 2 ∧ len ≤ x.size ∧ ¬ x.immutable then .ok s b
-      else if 2 ≤ x.ref ∧ x.nocopy ∧ x.used ≠ 0 then .fail s .null
+      else if 2 ≤ x.ref ∧ x.uncopyable ∧ x.used ≠ 0 then .fail s .null
       else
         let nb := s.bufs.length
         let s1 := s.newBuf len (x.flags - x.flags % 2) x.traits
@@ -671,7 +677,7 @@ def arrayReduce (s : State) (h : Nat) : Out Nat :=
 /-- copy step of the shared / immutable branch of `mpt_array_reserve`: compatible content is copied into the
     new buffer `nb`, cut to the reserved length -/
 def reserveCopy (s : State) (nb : Nat) (x : Buf) (len : Nat) (traits : Option Traits) : Out Int :=
-  if x.traits = traits ∧ ¬ x.nocopy ∧ min (x.used - x.used % esize x.traits) len ≠ 0 then
+  if x.traits = traits ∧ ¬ x.uncopyable ∧ min (x.used - x.used % esize x.traits) len ≠ 0 then
     bufferSet s nb traits 0 (x.data.take (min (x.used - x.used % esize x.traits) len)) true
   else .ok s 0
 
@@ -805,8 +811,21 @@ def arrayPrintf (s : State) (h : Nat) (ct : Traits) (text : List Byte) : Out Nat
       if x.traits ≠ some ct then .fail s (.err .BadType)
       else printfTail s h x.used ((x.size - x.used + 63) / 64 * 64) text
 
-/-- `mpt_array_string(arr)`: the static `traits` pointer is never set, so every call is refused -/
-def arrayString (s : State) (_h : Nat) : Out Unit := .fail s .null
+/-- `mpt_array_string(arr)`: character data only; when the data holds no zero byte one is appended -/
+def arrayString (s : State) (h : Nat) (ct : Traits) : Out Unit :=
+  match s.handle h with
+  | none => .fail s .null
+  | some b =>
+    match s.buf? b with
+    | none => .fault "string: freed buffer"
+    | some x =>
+      if x.traits ≠ some ct then .fail s .null
+      else if x.content.contains 0 then .ok s ()
+      else
+        match arraySlice s h x.used 1 with
+        | .ok s1 _ => poke s1 h x.used [0]
+        | .fail s1 e => .fail s1 e
+        | .fault w => .fault w
 
 /-! ### slices (slice_write.c) -/
 
@@ -899,6 +918,27 @@ def cutOp (s : State) (h off len : Nat) : Out Nat :=
       | .fail s1 e => .fail s1 e
       | .fault w => .fault w
 
+/-- private copy of the current size, then `mpt_buffer_insert` and the caller's copy -/
+def binsertOp (s : State) (h pos : Nat) (bytes : List Byte) : Out Nat :=
+  match s.handle h with
+  | none => .fail s .null
+  | some b =>
+    match s.buf? b with
+    | none => .fault "binsert: freed buffer"
+    | some x =>
+      match ensure s h b true x.used with
+      | .ok s1 nb =>
+        (match bufferInsert s1 nb pos bytes.length with
+         | .ok s2 p =>
+           (match poke s2 h p bytes with
+            | .ok s3 _ => .ok s3 p
+            | .fail s3 e => .fail s3 e
+            | .fault w => .fault w)
+         | .fail s2 e => .fail s2 e
+         | .fault w => .fault w)
+      | .fail s1 _ => .fail s1 .null
+      | .fault w => .fault w
+
 /-- private copy large enough, then `mpt_buffer_set` with the buffer's own traits -/
 def bsetOp (s : State) (h pos : Nat) (bytes : List Byte) (hasSrc : Bool) : Out Int :=
   match s.handle h with
@@ -959,11 +999,12 @@ def ctorLoop : Nat → State → Nat → Nat → Nat → Out Unit
     | .fault w => .fault w
 
 /-- `p = mpt_array_insert(arr, pos, len)` followed by what the caller does with the region: construct the
-    elements when the buffer has a constructor, copy the bytes otherwise -/
+    elements when the buffer has a constructor or a destructor, copy the bytes otherwise -/
 def insertOpE (s : State) (h pos : Nat) (bytes : List Byte) : Out Nat :=
   match arrayInsert s h pos bytes.length with
   | .ok s1 p =>
-    let managed : Option Traits := ((s1.handle h).bind s1.buf?).bind fun x => x.traits.bind fun t => if t.init ∧ t.size ≠ 0 then some t else none
+    let managed : Option Traits := ((s1.handle h).bind s1.buf?).bind fun x => x.traits.bind fun t =>
+      if (t.init ∨ t.fini.isSome) ∧ t.size ≠ 0 then some t else none
     match managed with
     | some t =>
       (match s1.handle h with
